@@ -166,6 +166,35 @@ theorem to_model_proto_idempotent (n : Nat) (f : OnnxFn) :
     (iterProto n f).2 = f ∧ ∀ p, p ∈ (iterProto n f).1 → p = (toProto f).1 :=
   iterProto_spec n f
 
+/-- `to_model_proto(**overrides)` never writes the function's (decorator's) kwargs dict: after any
+history of calls — on the function itself or on any other function, sharing the dict or not, with any
+overrides — every dict is what it was. ("without modifying the function") -/
+theorem to_model_proto_kwargs_unchanged (h : KWHeap) (H : List (PFn × KW)) : runCalls false h H = h := by
+  induction H generalizing h with
+  | nil => rfl
+  | cons c cs ih => simp only [runCalls, callProto, Bool.false_eq_true, if_false, ih]
+
+/-- **Overrides are per call.**  For every history `H` of `to_model_proto(**o')` calls on `f` and on
+siblings created by the same decorator object (or any other function), the result of
+`f.to_model_proto(**o)` is the fresh result: a function of `(f, o)` only. -/
+theorem to_model_proto_override_independent (h : KWHeap) (H : List (PFn × KW)) (f : PFn) (o : KW) :
+    (callProto false (runCalls false h H) f o).2 = (callProto false h f o).2 := by
+  rw [to_model_proto_kwargs_unchanged]
+
+/-- The aliasing variant (`merged = self.kwargs; merged.update(kwargs)`) is history dependent, also
+across functions: `g` shares `f`'s decorator dict; `g.to_model_proto(producer_name=7)` then
+`f.to_model_proto()` shows `producer_name = 7`. -/
+theorem to_model_proto_override_aliasing_refuted :
+    ¬ ∀ (h : KWHeap) (H : List (PFn × KW)) (f : PFn) (o : KW),
+        (callProto true (runCalls true h H) f o).2 = (callProto true h f o).2 := by
+  intro hh
+  have := hh (fun _ => []) [(⟨.x, 0⟩, [("producer_name", 7)])] ⟨.const 1, 0⟩ []
+  revert this; decide
+
+example : (callProto false (runCalls false (fun _ => [("producer_name", 1)])
+      [(⟨.x, 0⟩, [("producer_name", 7)]), (⟨.const 1, 0⟩, [("ir_version", 9)])]) ⟨.const 1, 0⟩ [("doc_string", 3)]).2
+    = (.const 1, [("doc_string", 3), ("producer_name", 1)]) := by decide
+
 /-- The proto computes what the Python body computes under the decoration-time globals. -/
 theorem proto_is_decoration_time_semantics (g : Globals) (body : SExp) (x : Val) :
     (toProto (decorate g body)).1.eval x = eagerCall g (decorate g body) x :=
